@@ -2,7 +2,7 @@
 use crate::util::*;
 use crate::Ctx;
 use anyhow::Result;
-use versatiles_core::types::{TileBBox, TileCoord2, TileCoord3};
+use versatiles_core::types::{TileBBox, TileBBoxPyramid, TileCoord2, TileCoord3};
 use versatiles_core::utils::TransformCoord;
 
 pub fn mk(z: u8, x0: u32, y0: u32, x1: u32, y1: u32) -> TileBBox {
@@ -33,10 +33,26 @@ fn b01(b: bool) -> String { if b { "1".into() } else { "0".into() } }
 
 const MAX_ENUM: u64 = 4096;
 
+/// pyramids on a line: the levels that differ from TileBBox::new_empty(level), `-` for none
+pub fn ppy(s: &str) -> TileBBoxPyramid { let mut p = TileBBoxPyramid::new_empty(); if s != "-" { for t in s.split(',') { p.set_level_bbox(pb(t)); } } p }
+pub fn fpy(p: &TileBBoxPyramid) -> String {
+	let v: Vec<String> = (0..32u8).filter(|z| p.get_level_bbox(*z) != &TileBBox::new_empty(*z).unwrap()).map(|z| fb(p.get_level_bbox(z))).collect();
+	if v.is_empty() { "-".into() } else { v.join(",") }
+}
+
 /// evaluates one op line (left-hand side tokens) on the implementation
 pub fn eval(op: &str, a: &[&str]) -> String {
 	let n = |i: usize| -> u32 { a[i].parse::<u64>().unwrap() as u32 };
 	match op {
+		"py.intersect" => out_of(guarded(|| { let mut p = ppy(a[0]); p.intersect(&ppy(a[1])); p }), |p| format!("ok:{}", fpy(&p))),
+		"py.include" => out_of(guarded(|| { let mut p = ppy(a[0]); p.include_bbox_pyramid(&ppy(a[1])); p }), |p| format!("ok:{}", fpy(&p))),
+		"py.inccoord" => out_of(guarded(|| { let mut p = ppy(a[0]); p.include_coord(&TileCoord3 { x: n(2), y: n(3), z: n(1) as u8 }); p }), |p| format!("ok:{}", fpy(&p))),
+		"py.zmin" => { let mut p = ppy(a[0]); p.set_zoom_min(n(1) as u8); fpy(&p) }
+		"py.zmax" => { let mut p = ppy(a[0]); p.set_zoom_max(n(1) as u8); fpy(&p) }
+		"py.info" => { let p = ppy(a[0]); format!("{} {} {} {}", p.get_zoom_min().map_or("-".into(), |z| z.to_string()), p.get_zoom_max().map_or("-".into(), |z| z.to_string()), p.count_tiles(), b01(p.is_empty())) }
+		"py.contains" => b01(ppy(a[0]).contains_coord(&TileCoord3 { x: n(2), y: n(3), z: n(1) as u8 })),
+		"py.overlaps" => b01(ppy(a[0]).overlaps_bbox(&pb(a[1]))),
+		"py.border" => out_of(guarded(|| { let mut p = ppy(a[0]); p.add_border(n(1), n(2), n(3), n(4)); p }), |p| format!("ok:{}", fpy(&p))),
 		"bb.new" => res(guarded(|| TileBBox::new(n(0) as u8, n(1), n(2), n(3), n(4))), |b| fb(&b)),
 		"bb.full" => res(guarded(|| TileBBox::new_full(n(0) as u8)), |b| fb(&b)),
 		"bb.emptynew" => res(guarded(|| TileBBox::new_empty(n(0) as u8)), |b| fb(&b)),
@@ -340,6 +356,34 @@ pub fn run(ctx: &Ctx) -> Result<()> {
 				let z = if rng.chance(1, 10) { rng.range(30, 40) as u8 } else { b.level };
 				w.emit("bb.new", &[z.to_string(), b.x_min.to_string(), b.y_min.to_string(), b.x_max.to_string(), b.y_max.to_string()]);
 				w.emit("co.flip", &[b.level.to_string(), b.x_min.to_string(), (b.y_max as u64 + rng.below(3)).min(u32::MAX as u64).to_string()]);
+			}
+			// pyramids: sparse levels (with gaps), boxes incl. empty encodings, level-wise operations
+			let gen_py = |rng: &mut Rng| -> String { let k = rng.below(5); let mut v: Vec<String> = vec![]; let mut zs: Vec<u8> = (0..k).map(|_| *rng.pick(&[0u8, 1, 2, 3, 4, 5, 9, 14, 30, 31])).collect(); zs.sort(); zs.dedup();
+				for z in zs { let m = ((1u64 << z) - 1) as u32; let b = match rng.below(6) { 0 => TileBBox::new_full(z).unwrap(), 1 => { let mut b = TileBBox::new_full(z).unwrap(); b.set_empty(); b }
+					_ => { let (x0, x1, y0, y1) = (rng.below(m as u64 + 1) as u32, rng.below(m as u64 + 1) as u32, rng.below(m as u64 + 1) as u32, rng.below(m as u64 + 1) as u32); mk(z, x0.min(x1), y0.min(y1), x0.max(x1), y0.max(y1)) } }; v.push(fb(&b)); }
+				if v.is_empty() { "-".into() } else { v.join(",") } };
+			for _ in 0..(if ctx.thorough { 20000 } else { 1500 }) {
+				let (p, q) = (gen_py(&mut rng), gen_py(&mut rng));
+				w.emit("py.intersect", &[p.clone(), q.clone()]);
+				// set semantics of the level-wise operations at the corners of every box involved
+				{ let (pp, qq) = (ppy(&p), ppy(&q)); spec_cases += 1;
+					let probes: Vec<TileCoord3> = pp.iter_levels().chain(qq.iter_levels()).flat_map(|b| vec![(b.x_min, b.y_min), (b.x_max, b.y_max), (b.x_min, b.y_max), ((b.x_min + b.x_max) / 2, (b.y_min + b.y_max) / 2)].into_iter().map(move |(x, y)| TileCoord3 { x, y, z: b.level })).collect();
+					if let Ok(r) = guarded(|| { let mut r = pp.clone(); r.intersect(&qq); r }) { for c in &probes { if r.contains_coord(c) != (pp.contains_coord(c) && qq.contains_coord(c)) {
+						specv.push(SpecV { kind: "pyramid-intersect", input: format!("py.intersect {p} {q}"), detail: format!("coordinate {}/{}/{} is {}in the result, {}in the first and {}in the second pyramid", c.z, c.x, c.y, if r.contains_coord(c) { "" } else { "not " }, if pp.contains_coord(c) { "" } else { "not " }, if qq.contains_coord(c) { "" } else { "not " }) }); break; } } }
+					if let Ok(r) = guarded(|| { let mut r = pp.clone(); r.include_bbox_pyramid(&qq); r }) { for c in &probes { if !r.contains_coord(c) {
+						specv.push(SpecV { kind: "pyramid-include", input: format!("py.include {p} {q}"), detail: format!("coordinate {}/{}/{} of an included box is not in the result", c.z, c.x, c.y) }); break; } } }
+				}
+				w.emit("py.include", &[p.clone(), q.clone()]);
+				let z = *rng.pick(&[0u8, 1, 2, 3, 5, 9, 14, 30, 31]); let m = ((1u64 << z) - 1) as u32;
+				let (x, y) = (rng.below(m as u64 + 1) as u32, rng.below(m as u64 + 1) as u32);
+				w.emit("py.inccoord", &[p.clone(), z.to_string(), x.to_string(), y.to_string()]);
+				w.emit("py.contains", &[p.clone(), z.to_string(), x.to_string(), y.to_string()]);
+				let lim = *rng.pick(&[0u8, 1, 2, 3, 4, 5, 9, 14, 30, 31, 32, 40, 255]);
+				w.emit("py.zmin", &[p.clone(), lim.to_string()]);
+				w.emit("py.zmax", &[p.clone(), lim.to_string()]);
+				w.emit("py.info", &[p.clone()]);
+				w.emit("py.overlaps", &[p.clone(), fb(&mk(z, x, y, m.min(x + 3), m.min(y + 2)))]);
+				w.emit("py.border", &[q.clone(), rng.below(4).to_string(), rng.below(4).to_string(), rng.below(300).to_string(), rng.below(4).to_string()]);
 			}
 			// exhaustive small zoom
 			let zmax_unary = 3u8;
